@@ -86,6 +86,7 @@ type Cluster struct {
 	// readyDigests is the per-Ready log used by the determinism oracle.
 	readyLog []uint64
 	initState *appState
+	vg        *VGroup
 	raftLog   []string
 	healing   bool
 }
@@ -184,6 +185,9 @@ func NewCluster(rc RunConfig, opt Options) *Cluster {
 	}
 	sort.Slice(c.ids, func(i, j int) bool { return c.ids[i] < c.ids[j] })
 	c.chk.init()
+	if len(rc.Virtual) > 0 && len(rc.Nodes) > 0 {
+		c.vg = newVGroup(c, rc.Nodes[0].ID, append([]uint64(nil), rc.Virtual...), proto.Clone(cs).(*pb.ConfState), init)
+	}
 	// Start everyone.
 	for _, id := range c.ids {
 		n := c.nodes[id]
@@ -443,6 +447,11 @@ func (c *Cluster) exec(a Action) bool {
 	case AHealPhase:
 		c.healing = true
 		return true
+	case AVElect, AVPropose, AVReplicate, AVCommit, AVCompact, AVSendApp, AVHeartbeat, AVSendSnap:
+		if c.vg == nil {
+			return false
+		}
+		return c.vg.exec(a)
 	}
 	n := c.nodes[a.N]
 	if n == nil {
@@ -602,7 +611,9 @@ func (c *Cluster) netSend(n *Node, m *pb.Message) {
 	c.stats.MsgsSent++
 	c.stats.MsgsByType[m.GetType().String()]++
 	if _, ok := c.nodes[to]; !ok {
-		return
+		if c.vg == nil || c.vg.peers[to] == nil {
+			return
+		}
 	}
 	k := linkKey{n.id, to}
 	if c.blocked[k] {
@@ -687,6 +698,13 @@ func (c *Cluster) doDeliver(a Action) bool {
 		c.stats.fault("msg_reorder")
 	}
 	n := c.nodes[a.M]
+	if n == nil && c.vg != nil && c.vg.peers[a.M] != nil {
+		vm := &pb.Message{}
+		if err := proto.Unmarshal(f.Bytes, vm); err == nil {
+			c.vg.receive(a.M, vm)
+		}
+		return true
+	}
 	if n == nil || !n.up {
 		c.stats.fault("msg_to_down_node")
 		return true
